@@ -71,7 +71,7 @@ fn pids_mentioned(ops: &[&str]) -> Vec<i32> {
         let w: Vec<&str> = op.split_whitespace().collect();
         if matches!(
             w.first(),
-            Some(&"ins") | Some(&"upd") | Some(&"async") | Some(&"job") | Some(&"amp")
+            Some(&"ins") | Some(&"upd") | Some(&"async") | Some(&"job") | Some(&"amp") | Some(&"hjs")
         ) {
             if let Some(p) = w.get(1).and_then(|p| p.parse().ok()) {
                 if !v.contains(&p) {
@@ -103,7 +103,7 @@ fn observe(l: &JobList, r: &str, pids: &[i32]) -> String {
         })
         .collect();
     let ids = [
-        JobId::CurrentJob,
+        JobId::default(),
         JobId::PreviousJob,
         JobId::JobNumber(1.try_into().unwrap()),
         JobId::JobNumber(2.try_into().unwrap()),
@@ -170,6 +170,23 @@ fn invariant(l: &JobList) -> Result<(), String> {
     if sus.len() >= 2 && !prev.map(|p| sus.contains(&p)).unwrap_or(false) {
         return Err("previous-not-suspended".into());
     }
+    // `ExitStatus::try_from(ProcessState)`, `ProcessState::from(ProcessResult)`
+    for (_, j) in l.iter() {
+        let expect = match j.state {
+            ProcessState::Running => None,
+            ProcessState::Halted(ProcessResult::Exited(e)) => Some(e.0),
+            ProcessState::Halted(ProcessResult::Stopped(n)) => Some(n.as_raw() + 384),
+            ProcessState::Halted(ProcessResult::Signaled { signal, .. }) => Some(signal.as_raw() + 384),
+        };
+        if ExitStatus::try_from(j.state).ok().map(|e| e.0) != expect {
+            return Err("exit-status-of-state".into());
+        }
+        if let ProcessState::Halted(r) = j.state {
+            if ProcessState::from(r) != j.state || !ProcessState::from(r).is_alive() != !r.is_stopped() {
+                return Err("state-of-result".into());
+            }
+        }
+    }
     let mut seen = HashSet::new();
     for (i, j) in l.iter() {
         if !seen.insert(j.pid) {
@@ -213,7 +230,7 @@ struct World {
 /// What one built-in left behind.
 struct Ran {
     status: i32,
-    divert: bool,
+    divert: String,
     stdout: String,
     stderr: String,
     stuck: bool,
@@ -234,6 +251,8 @@ impl World {
         for n in NAMES {
             env.builtins.insert(n, Builtin::new(Type::Mandatory, noop_main));
         }
+        // the standard input of an asynchronous command without job control
+        yverif::shell::write_file(&state, "/dev/null", b"");
         World { env, system, state, executor, shell_pid, out_len: 0, err_len: 0 }
     }
 
@@ -304,19 +323,27 @@ impl World {
         match r {
             Some(r) => Ran {
                 status: r.exit_status().0,
-                divert: r.divert().is_break(),
+                divert: match r.divert() {
+                    std::ops::ControlFlow::Continue(()) => String::new(),
+                    std::ops::ControlFlow::Break(yash_env::semantics::Divert::Interrupt(Some(es))) => {
+                        format!("!intr{}", es.0)
+                    }
+                    std::ops::ControlFlow::Break(_) => "!divert".into(),
+                },
                 stdout,
                 stderr,
                 stuck: false,
             },
-            None => Ran { status: -1, divert: false, stdout, stderr, stuck: true },
+            None => Ran { status: -1, divert: String::new(), stdout, stderr, stuck: true },
         }
     }
 }
 
 /// error classes of the messages on standard error, in order of appearance
 fn err_classes(stderr: &str) -> Vec<String> {
-    const PATTERNS: [(&str, &str); 14] = [
+    const PATTERNS: [(&str, &str); 16] = [
+        ("error printing results", "stdout"),
+        ("cannot start a subshell", "nofork"),
         ("job not found", "nf"),
         ("matches more than one job", "amb"),
         ("ambiguous job\n", "amb"),
@@ -368,7 +395,7 @@ fn show_ran(r: &Ran) -> String {
     format!(
         "{}{}:{}:{}",
         r.status,
-        if r.divert { "!divert" } else { "" },
+        r.divert,
         enc_str(&r.stdout),
         if errs.is_empty() { "-".to_string() } else { errs.join("+") }
     )
@@ -446,6 +473,24 @@ fn doc_simple(op: &str, cur: Option<usize>, prev: Option<usize>, snap: &Snap) ->
     })
 }
 
+/// message of the KNOWN FINDING (KNOWN_FINDINGS.txt): the clause "a job that is suspended becomes the
+/// current job" fails on the `insert` path when the current job is suspended
+const KNOWN_INSERT: &str = "doc-suspended-becomes-current@insert";
+/// check.py matches known findings on the case text only: a case whose only failure is the known
+/// finding is emitted with this suffix (ignored by the harness and by the model driver)
+const KNOWN_MARK: &str = "; !kf-insert-suspended";
+
+/// `emit`, with the known-finding mark on the case text iff the oracle's verdict is the known finding
+fn emit_case(case: &str, obs: &str, oracle: &str) {
+    let is_known = oracle.starts_with("FAIL:doc-suspended-becomes-current@insert@");
+    let bare = case.strip_suffix(KNOWN_MARK).unwrap_or(case);
+    if is_known {
+        emit(&format!("{bare}{KNOWN_MARK}"), obs, oracle);
+    } else {
+        emit(bare, obs, oracle);
+    }
+}
+
 /// FNV-1a (64 bit)
 fn fnv(s: &str) -> u64 {
     s.bytes().fold(14695981039346656037u64, |h, b| (h ^ b as u64).wrapping_mul(1099511628211))
@@ -468,6 +513,7 @@ fn run_case(case: &str) -> (String, String, String) {
         Some(rest) => (true, rest),
         None => (false, case),
     };
+    let case = case.strip_suffix(KNOWN_MARK).unwrap_or(case);
     let ops: Vec<&str> = case
         .split(';')
         .map(|s| s.trim())
@@ -477,11 +523,29 @@ fn run_case(case: &str) -> (String, String, String) {
     let mut l = JobList::new();
     let mut world: Option<World> = None;
     let mut obs = vec![];
+    // `verdict`: the first failure other than the known finding; `known`: the first occurrence of the
+    // known finding (reported only if nothing else fails, so that it never hides another failure)
     let mut verdict: Option<String> = None;
+    let mut known: Option<String> = None;
     let mut pre = true;
     for (k, op) in ops.iter().enumerate() {
         let w: Vec<&str> = op.split_whitespace().collect();
         let before: Vec<(usize, i32)> = l.iter().map(|(i, j)| (i, j.pid.0)).collect();
+        // "When a job is suspended, it becomes the current job, and the previous current job becomes the
+        // previous job": the pid of the job that becomes suspended in this step, and whether it is entered
+        // into the list already suspended (`insert`, `handle_job_status`) or goes from not suspended to
+        // suspended in the list (`update_status`)
+        let became: Option<(i32, bool)> = match w.as_slice() {
+            ["ins", p, st] | ["job", p, st, _, _] | ["hjs", p, st, _, _] if st.starts_with('S') => {
+                p.parse().ok().map(|p| (p, true))
+            }
+            ["upd", p, st] if st.starts_with('S') => p.parse().ok().and_then(|p: i32| {
+                let j = l.find_by_pid(Pid(p)).and_then(|i| l.get(i))?;
+                if j.state.is_stopped() { None } else { Some((p, false)) }
+            }),
+            _ => None,
+        };
+        let cur_before = l.current_job();
         // what the documentation promises about this step, evaluated on the real table
         let mut doc: Option<String> = None;
         let r: String = match w.as_slice() {
@@ -501,14 +565,45 @@ fn run_case(case: &str) -> (String, String, String) {
                 j.name = if *name == "-" { String::new() } else { name.to_string() };
                 l.insert(j).to_string()
             }
-            ["jobs", args @ ..] => {
+            ["jobs" | "jobsx", args @ ..] => {
                 let Some(fields) = parse_args(args) else {
                     return ("bad-case".into(), "-".into(), String::new());
                 };
                 let wd = world.get_or_insert_with(World::new);
                 let (cur, prev, snap) = (l.current_job(), l.previous_job(), snapshot(&l));
+                // the report of all jobs, built with the public `Accumulator` of job/fmt.rs
+                let expected_all = if args.is_empty() || *args == ["-l"] {
+                    let mut acc = yash_env::job::fmt::Accumulator::new();
+                    acc.current_job_index = cur;
+                    acc.previous_job_index = prev;
+                    acc.show_pid = !args.is_empty();
+                    for (i, j) in l.iter() {
+                        acc.add(i, j, &wd.env.system);
+                    }
+                    Some(acc.print)
+                } else {
+                    None
+                };
                 wd.env.jobs = std::mem::take(&mut l);
+                let closed = w[0] == "jobsx";
+                let saved = if closed {
+                    let shell = wd.shell_pid;
+                    wd.state.borrow_mut().processes.get_mut(&shell).and_then(|p| p.close_fd(yash_env::io::Fd::STDOUT))
+                } else {
+                    None
+                };
                 let ran = wd.run_builtin(&mut |_| (), |env| Box::pin(yash_builtin::jobs::main(env, fields)));
+                if let Some(body) = saved {
+                    let shell = wd.shell_pid;
+                    if let Some(p) = wd.state.borrow_mut().processes.get_mut(&shell) {
+                        let _ = p.set_fd(yash_env::io::Fd::STDOUT, body);
+                    }
+                }
+                if let Some(e) = expected_all {
+                    if ran.status == 0 && !closed && e != ran.stdout {
+                        doc = Some("accumulator-differs".into());
+                    }
+                }
                 l = std::mem::take(&mut wd.env.jobs);
                 if ran.status == 0 && !ran.stuck {
                     let pgid_only = !ran.stdout.is_empty() && !ran.stdout.starts_with('[');
@@ -576,12 +671,14 @@ fn run_case(case: &str) -> (String, String, String) {
                 show_ran(&ran)
             }
             ["fg", m, out, args @ ..] => {
-                let (Some(fields), Some(m), Some(outcome)) = (parse_args(args), parse_bool(m), parse_state(out)) else {
+                // `m` = monitor + 2*(a terminal /dev/tty exists) + 4*(the shell is interactive)
+                let (Some(fields), Ok(flags), Some(outcome)) = (parse_args(args), m.parse::<u8>(), parse_state(out)) else {
                     return ("bad-case".into(), "-".into(), String::new());
                 };
-                if outcome == ProcessState::Running {
+                if outcome == ProcessState::Running || flags > 7 {
                     return ("bad-case".into(), "-".into(), String::new());
                 }
+                let (m, tty, inter) = (flags & 1 != 0, flags & 2 != 0, flags & 4 != 0);
                 let wd = world.get_or_insert_with(World::new);
                 let (cur0, prev0, snap0) = (l.current_job(), l.previous_job(), snapshot(&l));
                 // the job the built-in is going to resume, found with the real job-ID code; only
@@ -600,6 +697,10 @@ fn run_case(case: &str) -> (String, String, String) {
                 }
                 let final_state = target.and_then(|i| l.get(i)).map(|j| if j.state.is_alive() { outcome } else { j.state });
                 wd.env.options.set(Monitor, if m { On } else { Off });
+                wd.env.options.set(Interactive, if inter { On } else { Off });
+                if tty {
+                    yash_env::test_helper::stub_tty(&wd.state);
+                }
                 wd.env.jobs = std::mem::take(&mut l);
                 let shell = wd.shell_pid;
                 let mut fired = false;
@@ -620,6 +721,7 @@ fn run_case(case: &str) -> (String, String, String) {
                     }
                 };
                 let ran = wd.run_builtin(&mut hook, |env| Box::pin(yash_builtin::fg::main(env, fields)));
+                wd.env.options.set(Interactive, Off);
                 l = std::mem::take(&mut wd.env.jobs);
                 if !ran.stuck && ran.stderr.is_empty() {
                     // "If the resumed job finishes, it is removed from the job list.  If the job gets
@@ -649,6 +751,76 @@ fn run_case(case: &str) -> (String, String, String) {
                 }
                 show_ran(&ran)
             }
+            ["hjs", p, res, i, name] => {
+                let (Ok(pid), Some(state), Some(inter)) = (p.parse::<i32>(), parse_state(res), parse_bool(i)) else {
+                    return ("bad-case".into(), "-".into(), String::new());
+                };
+                let ProcessState::Halted(result) = state else {
+                    return ("bad-case".into(), "-".into(), String::new());
+                };
+                if result.is_stopped() {
+                    if let Some(i) = l.find_by_pid(Pid(pid)) {
+                        if l.get(i).map(|j| j.state.is_alive()).unwrap_or(false) {
+                            pre = false;
+                        }
+                    }
+                }
+                let name = if *name == "-" { String::new() } else { name.to_string() };
+                let wd = world.get_or_insert_with(World::new);
+                wd.env.options.set(Interactive, if inter { On } else { Off });
+                wd.env.jobs = std::mem::take(&mut l);
+                let name2 = name.clone();
+                let r = yash_env::job::handle_job_status(&mut wd.env, Pid(pid), result, || name2);
+                wd.env.options.set(Interactive, Off);
+                l = std::mem::take(&mut wd.env.jobs);
+                // a foreground job that was suspended is in the list, job-controlled, under its name
+                if result.is_stopped() {
+                    let ok = l
+                        .find_by_pid(Pid(pid))
+                        .and_then(|i| l.get(i))
+                        .map(|j| j.name == name && j.job_controlled && j.state == state)
+                        .unwrap_or(false);
+                    if !ok {
+                        doc = Some("hjs-job".into());
+                    }
+                }
+                match r {
+                    std::ops::ControlFlow::Continue(es) => format!("cont:{}", es.0),
+                    std::ops::ControlFlow::Break(yash_env::semantics::Divert::Interrupt(Some(es))) => {
+                        format!("intr:{}", es.0)
+                    }
+                    std::ops::ControlFlow::Break(_) => "break".into(),
+                }
+            }
+            ["replast"] => {
+                if let Some((_, mut j)) = l.iter_mut().next_back() {
+                    j.state_reported();
+                }
+                "-".into()
+            }
+            ["ampfail"] => {
+                let wd = world.get_or_insert_with(World::new);
+                // without an executor `run_in_child_process` fails (ENOSYS): the subshell cannot start
+                let saved = wd.state.borrow_mut().executor.take();
+                wd.env.jobs = std::mem::take(&mut l);
+                let (before_len, before_async) = (wd.env.jobs.len(), wd.env.jobs.last_async_pid());
+                let item = yash_syntax::syntax::Item {
+                    and_or: Rc::new("a".parse().unwrap()),
+                    async_flag: Some(Location::dummy("")),
+                };
+                let ran = wd.run_builtin(&mut |_| (), |env| {
+                    Box::pin(async move {
+                        let r = item.execute(env).await;
+                        yash_env::builtin::Result::with_exit_status_and_divert(env.exit_status, r)
+                    })
+                });
+                wd.state.borrow_mut().executor = saved;
+                l = std::mem::take(&mut wd.env.jobs);
+                if l.len() != before_len || l.last_async_pid() != before_async {
+                    doc = Some("ampfail-table".into());
+                }
+                show_ran(&ran)
+            }
             ["wait", args @ ..] => {
                 let Some(fields) = parse_args(args) else {
                     return ("bad-case".into(), "-".into(), String::new());
@@ -667,6 +839,15 @@ fn run_case(case: &str) -> (String, String, String) {
                 match JobSpec::try_from(fields.remove(0)) {
                     Err(_) => "bad".into(),
                     Ok(spec) => {
+                        // `Display for JobId` prints a job ID that reads back as the same job ID
+                        if let JobSpec::JobId(f) = &spec {
+                            if let Ok(id) = yash_env::job::id::parse(&f.value) {
+                                let text = id.to_string();
+                                if yash_env::job::id::parse(&text) != Ok(id) {
+                                    doc = Some("id-display".into());
+                                }
+                            }
+                        }
                         let simple = match &spec {
                             JobSpec::JobId(f) => doc_simple(&f.value, l.current_job(), l.previous_job(), &snapshot(&l)),
                             _ => None,
@@ -793,20 +974,40 @@ fn run_case(case: &str) -> (String, String, String) {
             }
             _ => return ("bad-case".into(), "-".into(), String::new()),
         };
+        if doc.is_none() {
+            if let Some((pid, via_insert)) = became {
+                let j = l.find_by_pid(Pid(pid));
+                let ok = j.is_some()
+                    && l.current_job() == j
+                    && match cur_before {
+                        None => true,
+                        Some(c) => Some(c) == j || l.get(c).is_none() || l.previous_job() == Some(c),
+                    };
+                if !ok {
+                    doc = Some(if via_insert { KNOWN_INSERT.to_string() } else { "doc-suspended-becomes-current@update".to_string() });
+                }
+            }
+        }
         if verdict.is_none() && pre {
             if let Err(e) = invariant(&l) {
                 verdict = Some(format!("FAIL:inv@{k}:{e}"));
             } else if !stable(&before, &l) {
                 verdict = Some(format!("FAIL:index@{k}"));
             } else if let Some(d) = doc {
-                verdict = Some(format!("FAIL:{d}@{k}"));
+                if d == KNOWN_INSERT {
+                    known.get_or_insert(format!("FAIL:{d}@{k}"));
+                } else {
+                    verdict = Some(format!("FAIL:{d}@{k}"));
+                }
             }
         }
         obs.push(observe(&l, &r, &pids));
     }
     let key = obs.last().cloned().unwrap_or_default();
     let key = key.split_once(' ').map(|x| x.1.to_string()).unwrap_or(key);
-    let oracle = verdict.unwrap_or_else(|| if pre { "ok".into() } else { "ok-until-pre".into() });
+    let oracle = verdict
+        .or(known)
+        .unwrap_or_else(|| if pre { "ok".into() } else { "ok-until-pre".into() });
     if compact {
         return (compact_obs(&obs), oracle, key);
     }
@@ -877,6 +1078,17 @@ fn alphabet2() -> Vec<String> {
         "fg 1 E3 %-",
         "fg 1 K9 %2",
         "fg 1 S116 %3",
+        "fg 5 S120",
+        "fg 7 K2 %1",
+        "fg 3 E0",
+        "fg 1 E0 %1 %2",
+        "hjs 103 S120 0 b",
+        "hjs 101 S116 1 ab",
+        "hjs 102 K2 1 abc",
+        "jobsx",
+        "jobsx %1",
+        "ampfail",
+        "replast",
         "wait",
         "wait %1",
         "wait %% %-",
@@ -948,9 +1160,9 @@ fn random_mixed_op(r: &mut Rng, npids: usize) -> String {
         10 | 11 | 12 => format!("bg {} {}", if r.chance(1, 8) { 0 } else { 1 }, random_args(r, &["-x"], 15, 3)).trim().to_string(),
         13 | 14 => format!(
             "fg {} {} {}",
-            if r.chance(1, 8) { 0 } else { 1 },
-            r.pick(&["E0", "E7", "K9", "C3", "S120", "S116", "S121"]),
-            random_args(r, &["-x"], 15, 1)
+            r.pick(&["0", "1", "1", "1", "1", "3", "5", "7", "4"]),
+            r.pick(&["E0", "E7", "K9", "C3", "S120", "S116", "S121", "K2"]),
+            random_args(r, &["-x"], 15, 2)
         )
         .trim()
         .to_string(),
@@ -962,7 +1174,17 @@ fn random_mixed_op(r: &mut Rng, npids: usize) -> String {
             format!("wait {a}").trim().to_string()
         }
         17 => format!("wres {}", r.pick(&OPERANDS)),
-        18 => r.pick(&["disown", "rep", "rmdone 1", "rmchg"]).to_string(),
+        18 => match r.below(6) {
+            0 | 1 => format!(
+                "hjs {p} {} {} {}",
+                r.pick(&["S120", "S116", "S121", "E0", "E2", "K2", "K9", "C2"]),
+                r.below(2),
+                r.pick(&names)
+            ),
+            2 => format!("jobsx {}", random_args(r, &["-l", "-p", "-x"], 4, 2)).trim().to_string(),
+            3 => r.pick(&["ampfail", "replast", "replast"]).to_string(),
+            _ => r.pick(&["disown", "rep", "rmdone 1", "rmchg"]).to_string(),
+        },
         _ => format!("cur {}", r.below(npids + 1)),
     }
 }
@@ -970,7 +1192,7 @@ fn random_mixed_op(r: &mut Rng, npids: usize) -> String {
 /// `ins`/`job`/`amp` of a pid whose job is alive violates the stated precondition: keep only some of those.
 fn respects_pre(key: &str, op: &str) -> bool {
     let w: Vec<&str> = op.split_whitespace().collect();
-    if w[0] != "ins" && w[0] != "job" && w[0] != "amp" {
+    if w[0] != "ins" && w[0] != "job" && w[0] != "amp" && !(w[0] == "hjs" && w[2].starts_with('S')) {
         return true;
     }
     // key contains "jobs=i:pid:state:..." entries
@@ -990,7 +1212,7 @@ fn main() {
     let (fixed, only) = o.fixed_cases();
     for c in &fixed {
         let (obs, oracle, _) = run_guarded(c);
-        emit(c, &obs, &oracle);
+        emit_case(c, &obs, &oracle);
     }
     if only {
         return;
@@ -1016,7 +1238,7 @@ fn main() {
             let (obs, oracle, nkey) = run_guarded(&marked);
             edges += 1;
             if edges % o.shard.1 == o.shard.0 {
-                emit(&marked, &obs, &oracle);
+                emit_case(&marked, &obs, &oracle);
             }
             if seen.insert(nkey.clone()) {
                 queue.push_back((case, nkey, d + 1));
@@ -1043,7 +1265,7 @@ fn main() {
             let (obs, oracle, nkey) = run_guarded(&marked);
             edges += 1;
             if edges % o.shard.1 == o.shard.0 {
-                emit(&marked, &obs, &oracle);
+                emit_case(&marked, &obs, &oracle);
             }
             if seen.insert(nkey.clone()) {
                 queue.push_back((case, nkey, d + 1));
@@ -1079,7 +1301,7 @@ fn main() {
             }
         }
         let (obs, oracle, _) = run_guarded(&hist);
-        emit(&hist, &obs, &oracle);
+        emit_case(&hist, &obs, &oracle);
     }
     // random long histories, including ones that break the insert precondition, more pids
     let mut rng = Rng::new(o.seed ^ 0xC12);
@@ -1104,7 +1326,7 @@ fn main() {
                     3 | 4 | 5 | 6 => format!("upd {p} {}", r.pick(&["R", "S19", "S20", "E0", "E3", "K9"])),
                     7 => format!("cur {}", r.below(npids + 1)),
                     8 => format!("rm {}", r.below(npids + 1)),
-                    9 => r.pick(&["rmdone 0", "rmdone 1", "rmchg", "rep"]).to_string(),
+                    9 => r.pick(&["rmdone 0", "rmdone 1", "rmchg", "rep", "replast"]).to_string(),
                     10 => format!("exp {} {}", r.below(npids), r.pick(&["-", "R", "S19", "E0"])),
                     _ => r.pick(&["disown".to_string(), format!("async {p}")]).clone(),
                 };
@@ -1119,6 +1341,6 @@ fn main() {
             }
         }
         let (obs, oracle, _) = run_guarded(&hist);
-        emit(&hist, &obs, &oracle);
+        emit_case(&hist, &obs, &oracle);
     }
 }
